@@ -30,6 +30,22 @@ trait RefT {
     fn r_req(&self, p0: u32, p1: u32) -> u32;
     fn r_prov(&self, p0: u32, p1: u32) -> u32 { see(format!("prov({p0},{p1})")); self.r_req(p1, p0) + 1 }
 }
+/// an argument whose `Debug` counts its renderings (and can be told to panic): a matched, answered call never renders it
+pub struct CountDbg(pub u32);
+static DBG_RENDERINGS: std::sync::atomic::AtomicUsize = std::sync::atomic::AtomicUsize::new(0);
+impl std::fmt::Debug for CountDbg {
+    fn fmt(&self, f: &mut std::fmt::Formatter<'_>) -> std::fmt::Result {
+        DBG_RENDERINGS.fetch_add(1, std::sync::atomic::Ordering::SeqCst);
+        if self.0 == 66 { panic!("Debug of CountDbg(66) must not run") }
+        write!(f, "CountDbg({})", self.0)
+    }
+}
+#[unimock(api=DbgMock)]
+trait DbgT {
+    fn dbg_m2(&self, p0: CountDbg, p1: &mut u32) -> u32;
+    async fn dbg_a1(&self, p0: CountDbg) -> u32;
+}
+
 #[unimock(api=LtMock)]
 trait LtT {
     fn lt_m2<'a>(&self, p0: u32, p1: &'a mut u32) -> u32;
@@ -155,6 +171,24 @@ fn main() {
         let mut z = 5;
         let msg = match std::panic::catch_unwind(std::panic::AssertUnwindSafe(|| u.lt_m2(1, &mut z))) { Ok(v) => format!("returned {v}"), Err(p) => p.downcast_ref::<String>().cloned().unwrap_or_default() };
         check("ref.m2.named-lifetime-mut.rendering", msg.contains("LtT::lt_m2(1, 5)"), msg.replace('\n', " "));
+    });
+    // arguments are handed to the matcher and the answer as they are: their `Debug` is for error messages only
+    run_case("ref.m2.debug-not-rendered", || {
+        let u = Unimock::new(DbgMock::dbg_m2.each_call(&|m| m.func(|(a, b), _| { see(format!("match({},{})", a.0, b)); true })).answers(&|_, a, b| { see(format!("ans({},{})", a.0, b)); *b += 1; a.0 + *b }));
+        let before = DBG_RENDERINGS.load(std::sync::atomic::Ordering::SeqCst);
+        let mut z = 5;
+        let r = u.dbg_m2(CountDbg(66), &mut z);
+        let s = seen();
+        let n = DBG_RENDERINGS.load(std::sync::atomic::Ordering::SeqCst) - before;
+        check("ref.m2.debug-not-rendered", r == 72 && z == 6 && n == 0 && s == ["match(66,5)", "ans(66,5)"], format!("ret={r} z={z} renderings={n} seen={s:?}"));
+    });
+    run_case("async.a1.debug-not-rendered", || {
+        let u = Unimock::new(DbgMock::dbg_a1.each_call(&|m| m.func(|a, _| { see(format!("match({})", a.0)); true })).answers(&|_, a| { see(format!("ans({})", a.0)); a.0 + 1 }));
+        let before = DBG_RENDERINGS.load(std::sync::atomic::Ordering::SeqCst);
+        let r = block_on(u.dbg_a1(CountDbg(66)));
+        let s = seen();
+        let n = DBG_RENDERINGS.load(std::sync::atomic::Ordering::SeqCst) - before;
+        check("async.a1.debug-not-rendered", r == 67 && n == 0 && s == ["match(66)", "ans(66)"], format!("ret={r} renderings={n} seen={s:?}"));
     });
     run_case("ref.unmock.path", || {
         let u = Unimock::new((RefMock::r_m2.each_call(matching!(_, _)).applies_unmocked(), RefMock::r_req.each_call(matching!(_, _)).answers(&|_, a, b| { see(format!("req({a},{b})")); a + b })));
